@@ -33,6 +33,7 @@ type Clause struct {
 }
 
 type LoopSpec struct {
+	Unroll  int // >0: unroll up to this many iterations with symbolic exits (bounded loops)
 	Ordinal int
 	Vars    string // "(i int, x string)"
 	VarList []loopVar
@@ -53,6 +54,7 @@ type Contract struct {
 	Pure     bool // result is a function of the (scalar) arguments: callers see UF(args)
 	Trusted  bool // assumed contract: body is not verified (reported as such)
 	Requires []*Clause
+	Assumes  []*Clause // modelling assumptions, assumed at entry (also when inlined); listed in the evidence
 	Ensures  []*Clause
 	Modifies []*Clause
 	Loops    map[int]*LoopSpec
@@ -161,7 +163,7 @@ func parseContractFile(path, pkgPath string) (*ContractFile, error) {
 			cur = c
 			curLoop = nil
 			curClause = nil
-		case kw == "requires" || kw == "ensures" || kw == "invariant" || kw == "modifies":
+		case kw == "requires" || kw == "ensures" || kw == "invariant" || kw == "modifies" || kw == "assume":
 			if cur == nil {
 				return nil, fmt.Errorf("%s:%d: clause outside a function contract", path, ln)
 			}
@@ -178,6 +180,11 @@ func parseContractFile(path, pkgPath string) (*ContractFile, error) {
 			}
 			cl.Expr = rest
 			switch kw {
+			case "assume":
+				if cl.Label == "" {
+					cl.Label = fmt.Sprintf("assume%d", len(cur.Assumes))
+				}
+				cur.Assumes = append(cur.Assumes, cl)
 			case "requires":
 				if cl.Label == "" {
 					cl.Label = fmt.Sprintf("pre%d", len(cur.Requires))
@@ -220,6 +227,9 @@ func parseContractFile(path, pkgPath string) (*ContractFile, error) {
 				return nil, fmt.Errorf("%s:%d: bad loop ordinal", path, ln)
 			}
 			ls := &LoopSpec{Ordinal: ord}
+			if len(fields) >= 4 && fields[2] == "unroll" {
+				fmt.Sscanf(fields[3], "%d", &ls.Unroll)
+			}
 			if i := strings.Index(rest, "("); i >= 0 {
 				ls.Vars = strings.TrimSpace(rest[i:])
 				inner := strings.TrimSuffix(strings.TrimPrefix(ls.Vars, "("), ")")
@@ -430,6 +440,10 @@ func (cf *ContractFile) stub() string {
 			cl.StubFn = clauseFnName(c, "req", -1, i)
 			fmt.Fprintf(&b, "\nfunc %s(%s) bool { return %s }\n", cl.StubFn, c.params, cl.Expr)
 		}
+		for i, cl := range c.Assumes {
+			cl.StubFn = clauseFnName(c, "asm", -1, i)
+			fmt.Fprintf(&b, "\nfunc %s(%s) bool { return %s }\n", cl.StubFn, c.params, cl.Expr)
+		}
 		for i, cl := range c.Ensures {
 			cl.StubFn = clauseFnName(c, "ens", -1, i)
 			fmt.Fprintf(&b, "\nfunc %s(%s) bool { return %s }\n", cl.StubFn, join(c.params, c.results), cl.Expr)
@@ -481,7 +495,10 @@ func (cf *ContractFile) allText() string {
 		b.WriteString(s + "\n")
 	}
 	for _, c := range cf.Cs {
-		nstubs := len(c.Requires) + len(c.Ensures) + len(c.Modifies)
+		nstubs := len(c.Requires) + len(c.Ensures) + len(c.Modifies) + len(c.Assumes)
+		for _, cl := range c.Assumes {
+			b.WriteString(cl.Expr + "\n")
+		}
 		for _, l := range c.Loops {
 			nstubs += len(l.Invs)
 		}
@@ -753,7 +770,7 @@ func (e *Engine) variadicArgs(st *State, s *Term) []*Term {
 	e.declComp(comp, ArrayOf(LocS, IfaceS))
 	e.declComp("E:interface{}", ArrayOf(LocS, IfaceS))
 	for i := int64(0); i < n.IVal.Int64(); i++ {
-		l := ElemLoc(SliceBase(s), Add(SliceOff(s), IntT(i)))
+		l := ElemLoc(SliceBase(s), ElemIndex(SliceOff(s), IntT(i)))
 		v := Select(e.comp(st, comp), l)
 		if v.Op == "select" {
 			v = Select(e.comp(st, "E:interface{}"), l)
@@ -764,6 +781,11 @@ func (e *Engine) variadicArgs(st *State, s *Term) []*Term {
 }
 
 func (e *Engine) allocBase(fr *Frame) *Term {
+	for f := fr; f != nil; f = f.caller {
+		if f.freshBase != nil {
+			return f.freshBase
+		}
+	}
 	for f := fr; f != nil; f = f.caller {
 		if f.oldSt != nil {
 			return e.comp(f.oldSt, allocComp)
@@ -785,6 +807,11 @@ func (e *Engine) evalClause(fr *Frame, cl *Clause, args, extra []*Term, st, oldS
 	fn := e.clauseFn(cl)
 	all := append(append([]*Term{}, args...), extra...)
 	root := &Frame{clause: true, oldSt: nil, caller: nil}
+	if cl.Kind == "invariant" {
+		// in loop invariants, fresh(x) means: allocated since the entry of the
+		// function under verification (not of an inlined callee)
+		root.freshBase = e.alloc0
+	}
 	if fr != nil {
 		root.path = fr.path
 	}
